@@ -403,8 +403,10 @@ func (x *runner) banCall(word string, tg target, reason uint8, durMs int64) (str
 		x.r.hit("dur.subsecond")
 	case durMs <= 5000:
 		x.r.hit("dur.seconds")
-	default:
+	case durMs <= 86400000:
 		x.r.hit("dur.24h")
+	default:
+		x.r.hit("dur.years")
 	}
 	return fmt.Sprintf("%s %s %d %d %d %d", word, tg.words(), reason, durMs, t0, t1), obs
 }
@@ -480,11 +482,28 @@ func (x *runner) sleep(ms int64) {
 }
 
 // sleepUntil sleeps until the wall clock reads at least ms.
+//
+// No wait of this driver may scale with a value read back from the code under
+// test or with a ban duration: whatever the target, at most maxSleepMs are
+// slept (a target further away is a bug of the scenario or of the store; the
+// trace says so and the case goes on, its observations judged as they come).
 func (x *runner) sleepUntil(ms int64) {
-	if d := ms - nowMs(); d > 0 {
+	d := ms - nowMs()
+	if d > maxSleepMs {
+		x.r.line("# sleep target %d ms away: capped at %d ms", d, maxSleepMs)
+		x.r.hit("sleep.capped")
+		d = maxSleepMs
+	}
+	if d > 0 {
 		x.sleep(d)
 	}
 }
+
+const maxSleepMs = 3000
+
+// Very long bans: ten years, a century, beyond April 2262 (where Unix nanoseconds no longer fit 63 bits: 236 and
+// 250 years from now) and the longest whole-millisecond time.Duration (~292 years).
+var longDurations = []int64{315576000000, 3155760000000, 7447593600000, 7889400000000, 9223372036854}
 
 var durations = []int64{0, 0, -1, -5000, 1, 250, 700, 999, 1000, 1300, 2000, 86400000, 86400000, 86400000}
 
@@ -518,6 +537,8 @@ func randomCase(rng *rand.Rand, x *runner, nops int) {
 			d := durations[rng.Intn(len(durations))]
 			if rng.Intn(4) == 0 {
 				d = int64(rng.Intn(1800))
+			} else if rng.Intn(12) == 0 {
+				d = longDurations[rng.Intn(len(longDurations))]
 			}
 			x.ban(pickTarget(rng, bases), []uint8{0, 1, 2, 3, 4, 5, 255}[rng.Intn(7)], d)
 		case p < 70:
@@ -579,6 +600,25 @@ func lapseCase(rng *rand.Rand, x *runner) {
 	x.status(spell(rng, b))
 }
 
+// longCase: bans for years and centuries are reported (with their reason and
+// expiry) now, after a re-ban with another long duration, and after reopening.
+func longCase(rng *rand.Rand, x *runner) {
+	for _, d := range longDurations {
+		b := randBase(rng)
+		x.ban(spell(rng, b), uint8(1+rng.Intn(5)), d)
+		x.status(spell(rng, b))
+		x.status(spell(rng, b))
+	}
+	x.dump()
+	x.reopen()
+	b := randBase(rng)
+	for _, d := range longDurations {
+		x.ban(spell(rng, b), 4, d)
+		x.status(spell(rng, b))
+	}
+	x.dump()
+}
+
 // truncationProbe exhibits F15: banTime+duration has fractional part ~0.6 s and
 // the status query comes right after the whole second below it.
 func truncationProbe(rng *rand.Rand, x *runner) {
@@ -610,6 +650,12 @@ func straddleCase(rng *rand.Rand, x *runner) {
 	x.ban(spell(rng, b), 2, 1500)
 	_, exps := x.w.dumpRaw()
 	if len(exps) != 1 {
+		return
+	}
+	if at := exps[0]*1000 - 6 - nowMs(); exps[0] > 1<<40 || at < -1000 || at > maxSleepMs {
+		// the stored value is not the expiry second this scenario asked for: nothing to aim at (the dump and
+		// status lines already in the trace are judged by the model)
+		x.r.hit("straddle.no-target")
 		return
 	}
 	x.sleepUntil(exps[0]*1000 - 6)
@@ -650,6 +696,9 @@ func Run(t *tr.W, thorough bool) {
 	for i := 0; i < nInterpose; i++ {
 		jobs = append(jobs, job{"interpose", int64(i)})
 	}
+	for i := 0; i < 2; i++ {
+		jobs = append(jobs, job{"long", int64(i)})
+	}
 	for i := 0; i < nRace; i++ {
 		jobs = append(jobs, job{"race", int64(i)})
 	}
@@ -673,7 +722,7 @@ func Run(t *tr.W, thorough bool) {
 			defer func() { <-sem }()
 			r := &rec{hits: map[string]int{}}
 			results[i] = r
-			salt := int64(1300000) + map[string]int64{"probe": 1, "spellings": 2, "lapse": 3, "random": 4, "straddle": 5, "interpose": 6, "race": 7}[j.kind]*100000 + j.seed
+			salt := int64(1300000) + map[string]int64{"probe": 1, "spellings": 2, "lapse": 3, "random": 4, "straddle": 5, "interpose": 6, "race": 7, "long": 8}[j.kind]*100000 + j.seed
 			rng := tr.Rng(salt)
 			w, err := newWorld()
 			if err != nil {
@@ -693,6 +742,8 @@ func Run(t *tr.W, thorough bool) {
 				straddleCase(rng, x)
 			case "interpose":
 				interposeCase(rng, x)
+			case "long":
+				longCase(rng, x)
 			case "race":
 				raceCase(rng, x, raceRounds)
 			default:
